@@ -329,6 +329,9 @@ def expand_includes(text):
     return "\n".join(out)
 
 
+REACH = False   # when True, render() plants `assert(false)` at the start of every extracted function (reachability / vacuity guard)
+
+
 def render(vu):
     """returns (generated_text, fn_ranges [(first_line, last_line, obligation_id, kind)], extraction_log)"""
     lines = expand_includes(vu.text).split("\n")
@@ -369,6 +372,8 @@ def render(vu):
                     buf.append(l2)
                 i += 1
             flush()
+            if REACH:
+                ghosts = list(ghosts) + [("at", "start", 1, "        proof { assert(false); } // verif-reach: must FAIL (a pass means the precondition is unsatisfiable)")]
             sig, body, line = extract_fn(kv["file"], kv["fn"], kv.get("impl"))
             rules = set()
             body2 = apply_rules(body, vu.profile, rules)
@@ -582,6 +587,41 @@ def run_unit(vu, scratch_dir, prop):
     # vacuity guard: verus must have verified at least as many items as we track
     if not [o for o in bad if not o.endswith(".<canary>")] and n_verified < len(ranges) - 1:
         res.append(mk(vu.uid + ".<count>", "lemma", "", "undecided", reason="verus verified %d items, expected >= %d" % (n_verified, len(ranges))))
+    # reachability guard behind every precondition: with `assert(false)` planted at the start of each extracted function, Verus must
+    # report that assertion for EVERY one of them; a function where it passes has a contradictory `requires` (everything after it
+    # would verify vacuously)
+    if not bad or all(o.endswith(".<canary>") for o in bad):
+        global REACH
+        try:
+            REACH = True
+            rtext, rranges, _ = render(vu)
+        except Undecided:
+            rtext = None
+        finally:
+            REACH = False
+        if rtext is not None:
+            rpath = os.path.join(scratch_dir, "%s_reach.rs" % vu.uid.lower())
+            write(rpath, rtext)
+            rjs, rout, rerr, rwall = run_verus_file(rpath)
+            rverr, rhard = parse_errors(rerr if rerr != "timeout" else "", rpath)
+            rlines = rtext.split("\n")
+            hit = set()
+            for (kind, line, alll, msg) in rverr:
+                for cand in [line] + alll:
+                    if 0 < cand <= len(rlines) and "verif-reach" in rlines[cand - 1]:
+                        for (a, b, oid, k, fn) in rranges:
+                            if a <= cand <= b:
+                                hit.add(oid)
+            ext = [r for r in rranges if r[3] == "extracted"]
+            missing = [r[2] for r in ext if r[2] not in hit]
+            if rerr == "timeout" or rhard or rjs is None:
+                g = mk(vu.uid + ".<reach>", "cover", "", "undecided", reason="reachability variant could not be processed by verus: %s" % ((rhard or [rerr[-300:]])[0]))
+            elif missing:
+                g = mk(vu.uid + ".<reach>", "cover", "", "undecided", reason="precondition unsatisfiable (planted assert(false) was NOT refuted) in: " + ", ".join(missing))
+            else:
+                g = mk(vu.uid + ".<reach>", "cover", "", "guard-ok", checks=len(ext), time_s=round(rwall, 2))
+            g["kind"] = "cover"
+            res.append(g)
     for r in res:
         r["extraction"] = exlog
         r["verus_verified_items"] = n_verified
